@@ -1,24 +1,64 @@
 ------------------------------ MODULE TraceHook -----------------------------
 (***************************************************************************)
-(* C07 on converters the specification does NOT model operationally:       *)
-(* subclasses of Converter that override the documented hook               *)
-(* standardize_identifier (rewrite or reject identifiers).  Only the part  *)
-(* of C07 that relates ANSWERS TO ANSWERS is evaluated, on logged values:  *)
-(*   is_uri(s)   <=>  compress(s) is a value  <=>  parse_uri(s) is a value *)
-(*   is_curie(s) <=>  expand(s) is a value                                 *)
-(*   parse(s)    =    parse_uri(s) if is_uri(s), else parse_curie(s) if    *)
-(*                    is_curie(s), else nothing                            *)
-(*   compress_or_standardize(s) = the CURIE of parse(s)                    *)
-(*   compress_strict / expand_strict = the strict=True calls (raw)         *)
-(* Each call is one row {x, delim, a: method -> outcome}.                  *)
+(* C07 on subclasses of Converter that override the documented hook        *)
+(* standardize_identifier (rewrite or reject identifiers), validated       *)
+(* against Hooked.tla.  Each call is one row                               *)
+(*    {ci, x, delim, a: method key -> outcome, h: observed graph of the    *)
+(*     hook},                                                              *)
+(* where `h` lists what the subclass's method answered when the recorder   *)
+(* asked it DIRECTLY for every canonical prefix of the converter and every *)
+(* suffix of x after an occurrence of the delimiter (the specification     *)
+(* decides which entry matters).  Three kinds of clause:                   *)
+(*  ans.hook.<key>  conformance: the logged answer is Hooked!AnsH on the   *)
+(*                  converter built from the logged records and `h`;       *)
+(*  mon.C07.hook.declarative  the declarative statement Hooked!P_C07H      *)
+(*                  with the LOGGED answers as oracle;                     *)
+(*  mon.C07.hook.<law>  the answer-to-answer laws on raw logged values     *)
+(*                  (they need neither the records nor the graph).         *)
 (***************************************************************************)
 EXTENDS Naturals, Sequences, FiniteSets, TLC, Json, IOUtils
 D == JsonDeserialize(IOEnv.TRACE_FILE)
 S(i) == D.strs[i]
-IsVal(o) == o[1] = "val"
-Has(c, k) == k \in DOMAIN c.a
-CallBad(c) ==
-  LET a == c.a  d == S(c.delim) IN
+FoldTab == D.fold
+TFold(ch) == IF \E i \in 1..Len(FoldTab) : FoldTab[i][1] = ch
+             THEN FoldTab[CHOOSE i \in 1..Len(FoldTab) : FoldTab[i][1] = ch][2]
+             ELSE <<ch>>
+INSTANCE Hooked WITH FoldMap <- TFold
+
+SSet(js) == {S(js[k]) : k \in 1..Len(js)}
+JRec(j) == Rec(S(j.p), S(j.u), SSet(j.ps), SSet(j.us), IF Len(j.pat) = 0 THEN <<>> ELSE <<S(j.pat[1])>>)
+JRecs(js) == [k \in 1..Len(js) |-> JRec(js[k])]
+ConvOf(ci) == Fresh(JRecs(D.convs[ci].recs), S(D.convs[ci].delim))
+JHook(js) == {<<<<S(js[k][1]), S(js[k][2])>>, IF js[k][3][1] = "val" THEN Val(S(js[k][3][2])) ELSE None1>> : k \in 1..Len(js)}
+
+Kind(m) == CASE m \in {"parse_uri", "parse_curie", "parse"} -> "pair"
+             [] m \in {"is_uri", "is_curie"} -> "bool"
+             [] m \in {"expand_all"} -> "list"
+             [] OTHER -> "str"
+DecVal(m, v) == CASE Kind(m) = "pair" -> <<S(v[1]), S(v[2])>>
+                  [] Kind(m) = "bool" -> v
+                  [] Kind(m) = "list" -> <<S(v[1]), {S(v[k]) : k \in 2..Len(v)}>>
+                  [] OTHER -> S(v)
+Dec(m, o) == CASE o[1] = "val" -> Val(DecVal(m, o[2]))
+               [] o[1] = "raise" -> Raise(o[2])
+               [] OTHER -> <<o[1]>>
+KeyOf(m, md) == IF md.s /\ md.p THEN m \o "@sp" ELSE IF md.s THEN m \o "@s" ELSE IF md.p THEN m \o "@p" ELSE m
+Methods == {"parse_uri", "compress", "is_uri", "parse_curie", "expand", "expand_all", "is_curie", "standardize_curie",
+            "standardize_uri", "parse", "compress_or_standardize", "expand_or_standardize", "compress_strict", "expand_strict"}
+Questions == Methods \X {Default, Strict, Pass, Both}
+
+\* conformance with the operational specification of the hooked converter
+ConfBad(call, c, h) ==
+  {"ans.hook." \o KeyOf(q[1], q[2]) : q \in {q \in Questions :
+       /\ KeyOf(q[1], q[2]) \in DOMAIN call.a
+       /\ Dec(q[1], call.a[KeyOf(q[1], q[2])]) # AnsH(c, h, q[1], q[2], S(call.x))}}
+\* the declarative statement, logged answers as oracle
+MonBad(call, c, h) ==
+  LET A(m, md, x) == IF KeyOf(m, md) \in DOMAIN call.a THEN Dec(m, call.a[KeyOf(m, md)]) ELSE <<"missing">> IN
+  IF P_C07H(c, h, S(call.x), A) THEN {} ELSE {"mon.C07.hook.declarative"}
+\* answer-to-answer laws on raw logged values
+LawBad(call) ==
+  LET a == call.a  d == S(call.delim) IN
   (IF a["is_uri"][1] # "val" \/ a["is_curie"][1] # "val" THEN {"mon.C07.hook.predicates_raise"} ELSE
    LET isuri == a["is_uri"][2]  iscurie == a["is_curie"][2] IN
    (IF isuri # IsVal(a["compress"]) \/ isuri # IsVal(a["parse_uri"]) THEN {"mon.C07.hook.is_uri"} ELSE {}) \cup
@@ -30,6 +70,9 @@ CallBad(c) ==
     ELSE (IF a["compress_or_standardize"] # <<"none">> THEN {"mon.C07.hook.compress_or_standardize"} ELSE {}))) \cup
   (IF a["compress_strict"] # a["compress@s"] THEN {"mon.C07.hook.compress_strict"} ELSE {}) \cup
   (IF a["expand_strict"] # a["expand@s"] THEN {"mon.C07.hook.expand_strict"} ELSE {})
+CallBad(call) ==
+  LET c == ConvOf(call.ci)  h == JHook(call.h) IN
+  LawBad(call) \cup ConfBad(call, c, h) \cup MonBad(call, c, h)
 Groups == D.groups
 VARIABLES g, step
 fvars == <<g, step>>
